@@ -130,6 +130,11 @@ func c05Gen(rng *rand.Rand) (B int, steps []c05Step) {
 			st.ELTime = base + uint64(rng.Intn(int(span)+2))
 			steps = append(steps, st)
 		default:
+			if rng.Intn(3) == 0 {
+				// an ignore-old join that reaches nobody (peer not up yet): it changes nothing
+				steps = append(steps, c05Step{Kind: "joinfail"})
+				break
+			}
 			steps = append(steps, c05Step{Kind: "local", Events: []c05Ev{{Name: "loc", Payload: fmt.Sprint("L", i)}}})
 		}
 	}
@@ -325,6 +330,12 @@ func c05Sequential(t *testing.T, rng *rand.Rand) (viol []string, stats map[strin
 					return
 				}
 				stats["ignore_joins"]++
+			case "joinfail":
+				if n, err := nd.S.Join([]string{"10.0.0.77:7946"}, true); err == nil || n != 0 {
+					viol = append(viol, fmt.Sprintf("join of an address nobody listens on returned n=%d err=%v", n, err))
+					return
+				}
+				stats["ignore_joins_that_reached_nobody"]++
 			case "local":
 				// a locally issued event: clock++ ; it is delivered locally
 				e := c05Ev{LTime: m.clock, Name: st.Events[0].Name, Payload: st.Events[0].Payload}
